@@ -372,6 +372,18 @@ def build() -> Check:
         ck.ob("R5.inline-answer-is-size-checked", fn_construct(wrapper), not un_,
               (un_[0][0] + f" (handler outcomes: {', '.join(classes_[:8])}{' ...' if len(classes_) > 8 else ''})") if un_ else "", cell=status_)
     ck.ob("R5.response-limit", fn_construct(wrapper), lim == {str(6 * 1024 * 1024 - 50)}, f"response size limit evaluates to {sorted(lim)}")
+    # R3 the rebuild must be able to go as deep as the first delivery went (h3_C16 #1): execute() runs every branch on a fresh pool thread (a fresh Python
+    # stack per nesting level), replay() walks the recorded branches in the caller's thread and a nested summarised map is walked inside that walk (about
+    # 15 frames per level): from ~66 nested summarised map/parallel levels on, the first delivery succeeds and every replay answers FAILED (RecursionError).
+    cex16 = prog.cls("concurrency.executor", "ConcurrentExecutor")
+    rp16 = cex16.methods.get("replay")
+    if rp16 is None:
+        raise AnalysisError("ConcurrentExecutor.replay not found")
+    inline = [c for c in ast.walk(rp16.node) if isinstance(c, ast.Call) and isinstance(c.func, ast.Attribute) and c.func.attr == "_execute_item_in_child_context"]
+    pooled = any(isinstance(c, ast.Call) and isinstance(c.func, ast.Attribute) and c.func.attr in ("submit", "map") for c in ast.walk(rp16.node))
+    ck.ob("R3.rebuild-reaches-the-depth-of-the-first-delivery", fn_construct(rp16), pooled or not inline,
+          "replay() re-traverses the recorded branches in the calling thread: every nesting level of summarised map / parallel adds its frames to one stack, while "
+          "the first delivery started each level on a fresh pool thread - a nesting that was delivered (and recorded) cannot be rebuilt beyond ~66 levels")
     return ck
 
 
